@@ -124,6 +124,73 @@ impl Frame {
   }
 }
 
+/// Best-first variant of `explore` (used by `chanh races`): the same prefix tree — every complete schedule within
+/// the bound is reached exactly once — but pending prefixes are visited in order of the preemptions they have spent
+/// (all schedules without preemption first, then those with one, then two), so a run budget that ends the
+/// exploration early cuts off the many-preemption tail instead of everything that differs early from the default
+/// schedule.
+pub fn explore_bf(base: &Case, bound: usize, max_runs: usize, all: bool, out: &mut dyn Write) -> (usize, bool) {
+  use std::collections::VecDeque;
+  let mut queues: Vec<VecDeque<Vec<usize>>> = (0..=bound).map(|_| VecDeque::new()).collect();
+  queues[0].push_back(Vec::new());
+  let mut runs = 0usize;
+  let mut with_monitor = 0usize;
+  let mut deadlocks = 0usize;
+  let mut sigs: std::collections::BTreeMap<String, usize> = Default::default();
+  let mut complete = true;
+  loop {
+    let Some(prefix) = queues.iter_mut().find_map(|q| q.pop_front()) else { break };
+    if runs >= max_runs {
+      complete = false;
+      break;
+    }
+    let mut c = base.clone();
+    c.id = format!("{}.d{}", base.id, runs);
+    c.mode = "dfs".into();
+    c.strategy = "replay".into();
+    c.schedule = Some(prefix.clone());
+    let res = exec::run_case(&c, crate::config_for(&c));
+    runs += 1;
+    let text = crate::render(&c, &res);
+    let mut hit = false;
+    for l in text.lines() {
+      if let Some(rest) = l.strip_prefix("!monitor ") {
+        hit = true;
+        *sigs.entry(rest.split(" | ").next().unwrap_or("").to_string()).or_insert(0) += 1;
+      }
+    }
+    if hit {
+      with_monitor += 1;
+    }
+    if matches!(res.outcome.status, rt::Status::Deadlock(_)) {
+      deadlocks += 1;
+    }
+    if all || hit {
+      let _ = out.write_all(text.as_bytes());
+    }
+    let mut f = Frame::new(&res.outcome.decisions, prefix.len());
+    while let Some(p) = f.next_child(bound) {
+      // preemptions spent by the child prefix = those of the shared part + the cost of its last (forced) decision
+      let i = p.len() - 1;
+      let cost = match f.cur[i] {
+        Some(cur) if cur != p[i] => 1,
+        _ => 0,
+      };
+      let k = (f.pre[i] + cost).min(bound);
+      queues[k].push_back(p);
+    }
+  }
+  let _ = writeln!(
+    out,
+    "#dfs case={} preempt={} order=bf runs={} complete={} deadlocks={} runs-with-monitor={}",
+    base.id, bound, runs, complete, deadlocks, with_monitor
+  );
+  for (s, n) in sigs {
+    let _ = writeln!(out, "#dfs-signature {} {}", n, s);
+  }
+  (runs, complete)
+}
+
 pub fn explore(base: &Case, bound: usize, max_runs: usize, all: bool, out: &mut dyn Write) {
   let mut runs = 0usize;
   let mut with_monitor = 0usize;
